@@ -13,7 +13,7 @@ Numerals == << <<"12", "">>, <<"3", "5">>, <<"1", "">>, <<"250", "">> >>
 NumText(cul, k) == Numerals[k][1] \o (IF Numerals[k][2] = "" THEN "" ELSE DecMark(cul) \o Numerals[k][2])
 Connector(cul) == CASE cul = "en-us" -> "and" [] cul \in {"es-es", "es-mx"} -> "y" [] cul = "fr-fr" -> "et" [] cul \in {"pt-br", "it-it"} -> "e"
                     [] cul = "de-de" -> "und" [] cul = "nl-nl" -> "en" [] OTHER -> ""
-Amounts == << <<1, 1>>, <<2, 50>>, <<10, 5>>, <<100, 99>>, <<7, 3>> >>
+Amounts == << <<1, 1>>, <<2, 50>>, <<10, 5>>, <<100, 99>>, <<7, 3>>, <<1, 14>>, <<12, 59>> >>
 
 (* observed value -> <<sign, int, frac>> (same parser as NumLiteral) *)
 RECURSIVE Zs(_)
